@@ -29,7 +29,7 @@ def one(d):
         return nid, out
     finally:
         shutil.rmtree(w, ignore_errors=True)
-with ThreadPoolExecutor(5) as ex:
+with ThreadPoolExecutor(6) as ex:
     res = list(ex.map(one, dirs))
 clean = 0
 for nid, out in res:
